@@ -282,7 +282,10 @@ class World:
                 entries = list(os.scandir(d))
             except FileNotFoundError:
                 continue
-            for ent in entries:
+            def _key(ent):
+                mm = re.search(r"config_batch_(\d+)\.json$", ent.name)
+                return (0, int(mm.group(1)), ent.name) if mm else (1, 0, ent.name)
+            for ent in sorted(entries, key=_key):
                 n = ent.name
                 if n == "results.json" or n == "pipeline.json" or n == "submitter.lock" or \
                         (n.startswith("config_batch_") and n.endswith(".json")):
